@@ -383,7 +383,7 @@ class Engine:
                             src = None
                         break
                 if src is not None:
-                    mm = re.match(r'\s*(?:unsafe\s+)?impl(?:<[^>]*>)?\s+(?:(.+?)\s+for\s+)?([A-Za-z0-9_:<>, \'&\[\]]+?)\s*(?:where.*)?\{?\s*$', src)
+                    mm = re.match(r'\s*(?:unsafe\s+)?impl(?:<[^>]*>)?\s+(?:(.+?)\s+for\s+)?([A-Za-z0-9_:<>, \'&\[\]()]+?)\s*(?:where.*)?\{?\s*$', src)
                     if mm:
                         trait, ty = mm.group(1), mm.group(2).strip()
                         ty_short = re.sub(r'<.*>', '', ty).split('::')[-1]
@@ -1355,6 +1355,10 @@ class Engine:
             dm = re.match(r"^<dyn (\w+)(<.*?>)?( \+ .*)? as (\w+)(<.*>)?>::(\w+)$", callee)
             if dm and args:
                 return self.dyn_call(dm.group(4), dm.group(6), args, fr, dty)
+            gm = re.match(r"^<([A-Z]\w{0,2}) as ([\w:]+?)(<.*>)?>::(\w+)(::<.*>)?$", callee)
+            if gm and args:
+                # a trait method on a generic type parameter: dispatch on the runtime type of the receiver
+                return self.dyn_call(gm.group(2).split('::')[-1], gm.group(4), args, fr, dty)
             ctor = self.ctor_call(callee, args)
             if ctor is not None:
                 return ctor
@@ -1385,6 +1389,8 @@ class Engine:
             v = self.deref(v, fr)
         if isinstance(v, Struct):
             return v.ty
+        if isinstance(v, Opaque) and v.what == '()':
+            return '()'
         if isinstance(v, Opaque):
             return re.sub(r'<.*>', '', v.what).split('::')[-1]
         if isinstance(v, Enum):
